@@ -190,3 +190,195 @@ Section Transforms.
       split; auto.
   Qed.
 End Transforms.
+
+Section AttrUpdates.
+  Variable ct : ctable.
+  Hypothesis Hflat : flat_table ct.
+  Hypothesis Hninv : no_inval_table ct.
+  Hypothesis Hres : no_reserved_names ct.
+  Notation Inv := (Inv ct).
+  Notation rec := (exec ct XFUEL).
+
+  Lemma leaf_attr_ctor sp : leaf_attr sp -> exists t, ctor_of_ty (a_ty sp) = CtorTy t /\ ty_plain t.
+  Proof.
+    intros [[fam (Hf & _)]|(Sc & _)].
+    - exists (a_ty sp). unfold ctor_of_ty. destruct (a_ty sp); simpl in Hf; try discriminate; simpl; auto.
+    - exists (a_ty sp). unfold ctor_of_ty. destruct (scalar_nospec _ Sc) as [-> _]. split; auto.
+      destruct (a_ty sp); simpl in *; auto; discriminate.
+  Qed.
+
+  Lemma upd_mv_plain sp old new xf :
+    leaf_attr sp -> xf_plain xf ->
+    mv_plain (mkmv old new false PNone None (Some (ctor_of_ty (a_ty sp))) (Some (a_ty sp)) xf [] false).
+  Proof.
+    intros Hl Hx. destruct (leaf_attr_ctor sp Hl) as [t [Ec Pt]]. unfold mv_plain.
+    cbn [mv_prepare mv_attrs mv_transform mv_attr_transforms mv_ctor mv_expected prep_plain].
+    split; [exact I|]. split; auto. split; auto. split; auto. exists t, (a_ty sp). rewrite Ec. auto.
+  Qed.
+
+  Lemma hpure_getattr_default l a : hpure (getattr_default ct l a).
+  Proof.
+    unfold getattr_default. apply hpure_bind; [unfold read_inst; hpgo|]. intros p.
+    destruct (assoc a (snd p)); [apply hpure_ret|]. apply hpure_bind; [unfold cls_of; hpgo|]. intros; apply hpure_ret.
+  Qed.
+
+  (* obj.update_<a>(v, _inplace=True), v a real value (not a sentinel) nobody references *)
+  Theorem update_inplace l a hh s :
+    h_inplace hh = true -> h_kw hh = None -> is_sentinel (pos0 hh) = false ->
+    Inv (heap s) -> loose (heap s) (pos0 hh) -> recv_leafa ct l a (heap s) ->
+    Inv (heap (snd (run_helper ct l (HUpdate a) hh s))).
+  Proof.
+    intros Hin Hkw Hs I L R. unfold run_helper. destruct (negb (h_if hh)); [exact I|].
+    rewrite Hin, Hkw, Hs.
+    assert (Body : Inv (heap (snd ((r <- spec_for ct l a ;;
+              old <- current_value ct l (snd r) true false ;;
+              v <- rec (KMutateValue (mkmv old (pos0 hh) false PNone None
+                                           (Some (ctor_of_ty (a_ty (snd r)))) (Some (a_ty (snd r))) None [] false)) ;;
+              with_attr ct l (snd r) v None true) s)))).
+    { destruct (nth_error (heap s) l) as [o|] eqn:N.
+      2:{ unfold bind at 1. unfold spec_for, bind at 1. unfold read_inst, bind at 1. unfold read. rewrite N. exact I. }
+      destruct o as [xs|kvs|xs|cl d];
+        try (unfold bind at 1; unfold spec_for, bind at 1; unfold read_inst, bind at 1; unfold read; rewrite N; exact I).
+      destruct (lookup_cls ct cl) as [k|] eqn:Hk.
+      2:{ unfold bind at 1. unfold spec_for. erewrite bind_ok'; [|apply read_inst_eq; eauto]. cbn [fst snd].
+          unfold bind at 1. unfold cls_of. rewrite Hk. exact I. }
+      unfold bind at 1. rewrite (spec_for_run ct l a s cl d k N Hk).
+      destruct (lookup_attr k a) as [sp|] eqn:Ha; [|exact I]. cbn [snd].
+      pose proof (R _ _ _ _ N Hk Ha) as Hl. pose proof (lookup_attr_name k a sp Ha) as Hn.
+      eapply (T_run (fun h => Inv h /\ loose h (pos0 hh)) _ (fun _ h => Inv h) Inv Inv s); auto.
+      unfold current_value.
+      eapply T_bind with (Q := fun _ h => Inv h /\ loose h (pos0 hh)).
+      { eapply T_bind; [apply T_hpure; [apply hpure_getattr_default|tauto]|]. intros v0.
+        cbn [orb negb]. apply T_ret. auto. }
+      intros old.
+      eapply T_bind with (Q := fun v h => Inv h /\ loose h v).
+      { eapply T_conseq; [apply (Hmv ct Hflat XFUEL _ (fun h => loose h (pos0 hh)) (astable_loose _)
+                                  (upd_mv_plain sp old (pos0 hh) None Hl Logic.I))| | |].
+        - intros h [I0 L0]. split; auto.
+        - intros r h [[I0 L0] Rr]. split; auto.
+          destruct Rr as [[_ [E|[E _]]]|[->|Lr]]; auto.
+          + exfalso. cbn [mv_new] in E. rewrite E in Hs. discriminate.
+          + exfalso. unfold mv_use_new in E. cbn [mv_new] in E.
+            destruct (pos0 hh); simpl in *; discriminate.
+        - intros h [I0 _]. exact I0. }
+      intros v. unfold with_attr. rewrite Hn.
+      apply (prepare_then_store_any ct Hflat Hninv rec XFUEL l a sp v Hl). }
+    destruct (pos0 hh); simpl in Hs; try discriminate; exact Body.
+  Qed.
+
+  Local Opaque exec XFUEL.
+
+  (* the copy-on-write tail of with_<a> / update_<a> / transform_<a> *)
+  Lemma prepare_then_store_cow l cl (d : list (nat * val)) k a sp v :
+    flat_class k -> keys_managed k d -> lookup_cls ct cl = Some k -> leaf_attr sp ->
+    T (fun h => IF ct (inst_at l cl d) h /\ loose h v)
+      (value <- prepare_attr_value ct rec sp l v None ;;
+       mutate_attr ct rec l a value false true false false)
+      (fun _ h => Inv h) Inv.
+  Proof.
+    intros Fc Km Hk Hl.
+    eapply T_bind with (Q := fun value h => IF ct (inst_at l cl d) h /\ loose h value).
+    - eapply T_conseq;
+        [apply (prepare_attr_value_any ct Hflat XFUEL sp l v (inst_at l cl d) Hl (cstable_inst_at l cl d))
+        | auto | auto | intros h [I1 _]; exact I1].
+    - intros value. eapply T_pre; [|apply (mutate_attr_cow_T ct Hflat Hninv Hres l cl d k a value true Fc Km Hk)].
+      intros h [[I1 N1] L1]. split; auto. split; auto. split; auto. intros E; discriminate.
+  Qed.
+
+  (* obj.update_<a>(v) -- copy-on-write *)
+  Theorem update_cow l a hh s cl d k :
+    h_inplace hh = false -> h_kw hh = None -> is_sentinel (pos0 hh) = false ->
+    Inv (heap s) -> loose (heap s) (pos0 hh) -> flat_recv ct l (heap s) cl d k ->
+    (forall sp, lookup_attr k a = Some sp -> leaf_attr sp) ->
+    Inv (heap (snd (run_helper ct l (HUpdate a) hh s))).
+  Proof.
+    intros Hin Hkw Hs I L (N & Hk & Fc & Km) Hla. unfold run_helper. destruct (negb (h_if hh)); [exact I|].
+    rewrite Hin, Hkw, Hs.
+    assert (Body : Inv (heap (snd ((r <- spec_for ct l a ;;
+              old <- current_value ct l (snd r) false false ;;
+              v <- rec (KMutateValue (mkmv old (pos0 hh) false PNone None
+                                           (Some (ctor_of_ty (a_ty (snd r)))) (Some (a_ty (snd r))) None [] false)) ;;
+              with_attr ct l (snd r) v None false) s)))).
+    { unfold bind at 1. rewrite (spec_for_run ct l a s cl d k N Hk).
+      destruct (lookup_attr k a) as [sp|] eqn:Ha; [|exact I]. cbn [snd].
+      pose proof (Hla sp eq_refl) as Hl. pose proof (lookup_attr_name k a sp Ha) as Hn.
+      eapply (T_run (fun h => IF ct (inst_at l cl d) h /\ loose h (pos0 hh)) _ (fun _ h => Inv h) Inv Inv s); auto;
+        [|split; [split; auto|auto]].
+      unfold current_value.
+      eapply T_bind with (Q := fun _ h => IF ct (inst_at l cl d) h /\ loose h (pos0 hh)).
+      { eapply T_bind; [apply T_hpure; [apply hpure_getattr_default|intros h [[H _] _]; exact H]|]. intros v0.
+        cbn [orb negb]. rewrite orb_true_r. apply T_ret. auto. }
+      intros old.
+      eapply T_bind with (Q := fun v h => IF ct (inst_at l cl d) h /\ loose h v).
+      { eapply T_conseq; [apply (Hmv ct Hflat XFUEL _ (fun h => inst_at l cl d h /\ loose h (pos0 hh))
+                                  (astable_and _ _ (astable_inst_at l cl d) (astable_loose _))
+                                  (upd_mv_plain sp old (pos0 hh) None Hl Logic.I))| | |].
+        - intros h [[I0 N0] L0]. split; auto.
+        - intros r h [[I0 [N0 L0]] Rr]. split; [split; auto|].
+          destruct Rr as [[_ [E|[E _]]]|[->|Lr]]; auto.
+          + exfalso. cbn [mv_new] in E. rewrite E in Hs. discriminate.
+          + exfalso. unfold mv_use_new in E. cbn [mv_new] in E.
+            destruct (pos0 hh); simpl in *; discriminate.
+        - intros h [I0 _]. exact I0. }
+      intros v. unfold with_attr. rewrite Hn.
+      apply (prepare_then_store_cow l cl d k a sp v Fc Km Hk Hl). }
+    destruct (pos0 hh); simpl in Hs; try discriminate; exact Body.
+  Qed.
+
+  Lemma held_flat h l cl (d : list (nat * val)) k a sp v :
+    Inv h -> nth_error h l = Some (OInst cl d) -> lookup_cls ct cl = Some k ->
+    lookup_attr k a = Some sp -> leaf_attr sp -> assoc a d = Some v -> flat_val h v.
+  Proof.
+    intros I N Hk Ha [[fam Hl]|(Sc & _)] As.
+    - destruct (held_coll ct h l cl d k a sp fam v I N Hk Ha Hl As) as [fc [-> C]].
+      destruct Hl as (_ & Scc & _). unfold conf in C.
+      destruct (check_flat_valid ct FUEL h (a_ty sp) fc (scalar_coll_flat _ Scc) C) as [o [No So]].
+      destruct (conf_norefs ct h fc (a_ty sp) o Scc C No) as [Nr _]. exists o. auto.
+    - destruct I as [T _].
+      assert (C : check_type FUEL ct h v (a_ty sp) = true) by (eapply T; eauto; now apply assoc_in).
+      destruct v; simpl; auto. exfalso. exact (scalar_check_noref ct h FUEL (a_ty sp) (VRef l0) Sc C l0 eq_refl).
+  Qed.
+
+  (* obj.transform_<a>(f) -- copy-on-write, f a quiet function, no attribute transforms *)
+  Theorem transform_cow l a hh s cl d k :
+    h_inplace hh = false -> h_kwfn hh = [] -> oqfn (h_fn hh) ->
+    Inv (heap s) -> flat_recv ct l (heap s) cl d k ->
+    (forall sp, lookup_attr k a = Some sp -> leaf_attr sp) ->
+    (assoc a d = None -> nonref (class_default k a)) ->
+    Inv (heap (snd (run_helper ct l (HTransform a) hh s))).
+  Proof.
+    intros Hin Hkf Hq I (N & Hk & Fc & Km) Hla D. unfold run_helper. destruct (negb (h_if hh)); [exact I|].
+    rewrite Hin, Hkf.
+    unfold bind at 1. rewrite (spec_for_run ct l a s cl d k N Hk).
+    destruct (lookup_attr k a) as [sp|] eqn:Ha; [|exact I]. cbn [snd].
+    pose proof (Hla sp eq_refl) as Hl. pose proof (lookup_attr_name k a sp Ha) as Hn.
+    assert (Dn : a_dnc sp = false).
+    { destruct Fc as (_ & _ & Fa). apply Fa. eapply lookup_attr_in; eauto. }
+    unfold current_value. rewrite Dn. cbn [orb negb].
+    unfold bind at 1. unfold bind at 1. rewrite Hn.
+    rewrite (getattr_default_run ct l a s cl d k N Hk).
+    set (v0 := match assoc a d with Some v => v | None => class_default k a end).
+    assert (Fv : flat_val (heap s) v0).
+    { unfold v0. destruct (assoc a d) as [v|] eqn:As.
+      - eapply held_flat; eauto.
+      - specialize (D eq_refl). destruct (class_default k a); simpl; auto. exfalso. eapply D; reflexivity. }
+    pose proof (protect_flat ct Hflat v0 (inst_at l cl d) (cstable_inst_at l cl d) s
+                  (conj (conj I N) Fv)) as PF.
+    destruct (protect ct v0 s) as [[old|e] s1]; [|exact (proj1 PF)].
+    destruct PF as [[I1 N1] L1].
+    eapply (T_run (fun h => IF ct (inst_at l cl d) h /\ loose h old) _ (fun _ h => Inv h) Inv Inv s1); auto;
+      [|split; [split; auto|auto]].
+    eapply T_bind with (Q := fun v h => IF ct (inst_at l cl d) h /\ loose h v).
+    { eapply T_conseq; [apply (Hmv ct Hflat XFUEL _ (fun h => inst_at l cl d h /\ loose h old)
+                                (astable_and _ _ (astable_inst_at l cl d) (astable_loose _)))| | |].
+      - apply (upd_mv_plain sp old VMissing
+                 (match h_fn hh with Some f => Some (XFn f, None) | None => None end) Hl).
+        destruct (h_fn hh); simpl; auto.
+      - intros h [[I0 N0] L0]. split; auto.
+      - intros r h [[I0 [N0 L0]] Rr]. split; [split; auto|].
+        destruct Rr as [[-> _]|[->|Lr]]; auto. exact Logic.I.
+      - intros h [I0 _]. exact I0. }
+    intros v. unfold with_attr. rewrite Hn.
+    apply (prepare_then_store_cow l cl d k a sp v Fc Km Hk Hl).
+  Qed.
+End AttrUpdates.
